@@ -117,11 +117,13 @@ func Groups(quick bool) []group {
 			}})
 		}
 	}
-	// (1b) curated four-node Workflows: two independent lanes of two nodes, and a diamond with a late joiner. With
+	// (1b) curated Workflows: three independent nodes, two independent lanes of two nodes, and a diamond with a late joiner. With
 	// eager scheduling an interrupt taken in one lane finds the other lane not started / running / completed
 	// (these only run in the Engine-S part, which owns the schedule)
 	wf4 := map[string]*gprog.Prog{
-		"wf-2lanes":  {Mode: gprog.MWorkflow, Nodes: L("a", "b", "c", "d"), Edges: E("start>a", "a>c", "start>b", "b>d", "c>end", "d>end")},
+		"wf-2lanes": {Mode: gprog.MWorkflow, Nodes: L("a", "b", "c", "d"), Edges: E("start>a", "a>c", "start>b", "b>d", "c>end", "d>end")},
+		// three independent nodes: when the interrupt is taken after the first one to complete, TWO tasks are still in flight
+		"wf-fan3":    {Mode: gprog.MWorkflow, Nodes: L("a", "b", "c"), Edges: E("start>a", "start>b", "start>c", "a>end", "b>end", "c>end")},
 		"wf-diamond": {Mode: gprog.MWorkflow, Nodes: L("a", "b", "c", "d"), Edges: E("start>a", "start>b", "a>c", "b>c", "b>d", "c>end", "d>end")},
 	}
 	for _, wk := range sortedKeys(wf4) {
@@ -143,17 +145,17 @@ func Groups(quick bool) []group {
 	}
 	N := func(key string, sub *gprog.Prog) gprog.Node { return gprog.Node{Key: key, Kind: gprog.KSub, Sub: sub} }
 	nested := map[string]*gprog.Prog{
-		"sub-linear":      {Mode: gprog.MPregel, Nodes: []gprog.Node{N("a", subLinear(gprog.MPregel))}, Edges: E("start>a", "a>end")},
-		"sub-then-node":   {Mode: gprog.MPregel, Nodes: []gprog.Node{N("a", subLinear(gprog.MPregel)), {Key: "b", Kind: gprog.KLambda}}, Edges: E("start>a", "a>b", "b>end")},
-		"node-then-sub":   {Mode: gprog.MPregel, Nodes: []gprog.Node{{Key: "b", Kind: gprog.KLambda}, N("a", subFan(gprog.MPregel))}, Edges: E("start>b", "b>a", "a>end")},
-		"sub-parallel":    {Mode: gprog.MPregel, Nodes: []gprog.Node{N("a", subLinear(gprog.MPregel)), {Key: "b", Kind: gprog.KLambda}}, Edges: E("start>a", "start>b", "a>end", "b>end")},
-		"cycle-thru-sub":  {Mode: gprog.MPregel, MaxSteps: 6, Nodes: []gprog.Node{N("a", subLinear(gprog.MPregel))}, Edges: E("start>a"), Branches: []gprog.Branch{{From: "a", Targets: []string{"a", "end"}}}},
-		"cycle-sub-node":  {Mode: gprog.MPregel, MaxSteps: 8, Nodes: []gprog.Node{N("a", subLinear(gprog.MPregel)), {Key: "b", Kind: gprog.KLambda}}, Edges: E("start>a", "a>b"), Branches: []gprog.Branch{{From: "b", Targets: []string{"a", "end"}}}},
-		"dag-sub":         {Mode: gprog.MDag, Nodes: []gprog.Node{N("a", subLinear(gprog.MDag)), {Key: "b", Kind: gprog.KLambda}}, Edges: E("start>a", "start>b", "a>end", "b>end")},
-		"dag-sub-chain":   {Mode: gprog.MDag, Nodes: []gprog.Node{N("a", subFan(gprog.MDag)), {Key: "b", Kind: gprog.KLambda}}, Edges: E("start>a", "a>b", "b>end")},
-		"wf-sub":          {Mode: gprog.MWorkflow, Nodes: []gprog.Node{N("a", subLinear(gprog.MWorkflow)), {Key: "b", Kind: gprog.KLambda}}, Edges: E("start>a", "start>b", "a>end", "b>end")},
-		"wf-sub-chain":    {Mode: gprog.MWorkflow, Nodes: []gprog.Node{N("a", subLinear(gprog.MWorkflow)), {Key: "b", Kind: gprog.KLambda}}, Edges: E("start>a", "a>b", "b>end")},
-		"sub-in-sub":      {Mode: gprog.MPregel, Nodes: []gprog.Node{N("a", &gprog.Prog{Mode: gprog.MPregel, Nodes: []gprog.Node{N("m", subLinear(gprog.MPregel))}, Edges: E("start>m", "m>end")})}, Edges: E("start>a", "a>end")},
+		"sub-linear":     {Mode: gprog.MPregel, Nodes: []gprog.Node{N("a", subLinear(gprog.MPregel))}, Edges: E("start>a", "a>end")},
+		"sub-then-node":  {Mode: gprog.MPregel, Nodes: []gprog.Node{N("a", subLinear(gprog.MPregel)), {Key: "b", Kind: gprog.KLambda}}, Edges: E("start>a", "a>b", "b>end")},
+		"node-then-sub":  {Mode: gprog.MPregel, Nodes: []gprog.Node{{Key: "b", Kind: gprog.KLambda}, N("a", subFan(gprog.MPregel))}, Edges: E("start>b", "b>a", "a>end")},
+		"sub-parallel":   {Mode: gprog.MPregel, Nodes: []gprog.Node{N("a", subLinear(gprog.MPregel)), {Key: "b", Kind: gprog.KLambda}}, Edges: E("start>a", "start>b", "a>end", "b>end")},
+		"cycle-thru-sub": {Mode: gprog.MPregel, MaxSteps: 6, Nodes: []gprog.Node{N("a", subLinear(gprog.MPregel))}, Edges: E("start>a"), Branches: []gprog.Branch{{From: "a", Targets: []string{"a", "end"}}}},
+		"cycle-sub-node": {Mode: gprog.MPregel, MaxSteps: 8, Nodes: []gprog.Node{N("a", subLinear(gprog.MPregel)), {Key: "b", Kind: gprog.KLambda}}, Edges: E("start>a", "a>b"), Branches: []gprog.Branch{{From: "b", Targets: []string{"a", "end"}}}},
+		"dag-sub":        {Mode: gprog.MDag, Nodes: []gprog.Node{N("a", subLinear(gprog.MDag)), {Key: "b", Kind: gprog.KLambda}}, Edges: E("start>a", "start>b", "a>end", "b>end")},
+		"dag-sub-chain":  {Mode: gprog.MDag, Nodes: []gprog.Node{N("a", subFan(gprog.MDag)), {Key: "b", Kind: gprog.KLambda}}, Edges: E("start>a", "a>b", "b>end")},
+		"wf-sub":         {Mode: gprog.MWorkflow, Nodes: []gprog.Node{N("a", subLinear(gprog.MWorkflow)), {Key: "b", Kind: gprog.KLambda}}, Edges: E("start>a", "start>b", "a>end", "b>end")},
+		"wf-sub-chain":   {Mode: gprog.MWorkflow, Nodes: []gprog.Node{N("a", subLinear(gprog.MWorkflow)), {Key: "b", Kind: gprog.KLambda}}, Edges: E("start>a", "a>b", "b>end")},
+		"sub-in-sub":     {Mode: gprog.MPregel, Nodes: []gprog.Node{N("a", &gprog.Prog{Mode: gprog.MPregel, Nodes: []gprog.Node{N("m", subLinear(gprog.MPregel))}, Edges: E("start>m", "m>end")})}, Edges: E("start>a", "a>end")},
 	}
 	for _, nk := range sortedKeys(nested) {
 		p := nested[nk]
